@@ -188,7 +188,7 @@ class Check:
         unrep = [v for v in s.viol if not v['reproduced']]
         for v in real: print('VIOLATION property=%s replay=%s   # %s' % (s.pid, v['replay'], v['what']))
         print('%s %s: %d obligations, %d unsat, %d sat, %d unknown, %d witnesses, wall %.1fs' % (s.pid, s.tier, n_obl, n_unsat, n_sat, n_unk, len(s.witness), wall))
-        if n_sat and not s.viol and not s.known_hit:
+        if n_sat > len(s.viol) + len(s.known_hit):
             s.inconclusive.append('%d obligation(s) refuted by the solver but not turned into a replayed violation by the check' % n_sat)
         if real: return 1
         if unrep:
